@@ -18,7 +18,8 @@ RULE = (
     "contexts) and E (vector nodes holding non-polynomial or higher-degree elements, vector powers "
     "k in {0,1,2,3,0.5,-1,2.5}, constant sub-expressions, parameters); each recipe is rebuilt fresh and "
     "classified by the recursive and by the iterative traversal through e.degree, compute_degree, is_linear, "
-    "is_quadratic, Expression.is_linear, Problem._is_linear_problem and Problem._auto_select_method "
+    "is_quadratic, Expression.is_linear, Problem._is_linear_problem and Problem._auto_select_method, and once more "
+    "after every sub-expression object has been classified bottom-up on shared objects (non-initial degree caches) "
     "(transitions = those API calls + builder ops).  Oracle: exact polynomial over Fractions (mc/alg.py PolyAlg); "
     "a reported degree d needs an exact polynomial of total degree <= d, and every alarm carries a witness (an "
     "exact higher-degree monomial, or a non-vanishing (d+1)-th finite difference along a grid line).  "
@@ -161,6 +162,32 @@ def check_recipe(r, tier, seed, rep=None, want=None):
 
             observe(trav + "/Problem._is_linear_problem", lin_problem)
             observe(trav + "/Problem._auto_select_method", auto_method)
+    analysis._compute_degree_cached.cache_clear()
+    # non-initial states: every sub-expression object is classified BEFORE the expression that contains it
+    # (a user inspects a term, or solved a model containing it, and then reuses the same object)
+    from mc.interp import walk, kind_of
+
+    subs = [s_ for s_ in walk(r) if kind_of(s_) == "s"]
+    subs = sorted(set(subs), key=lambda t: (size(t), repr(t)))
+    for trav, thr in (("recursive", None), ("iterative", 0)):
+        ctxs = threshold(thr, analysis) if thr is not None else threshold(analysis._RECURSION_THRESHOLD, analysis)
+        with ctxs:
+            analysis._compute_degree_cached.cache_clear()
+            try:
+                bshared = Builder(params=params, share_scalars=True)
+                root = bshared.build(r)
+                last = None
+                for sub in subs:
+                    obj = bshared.build(sub)
+                    if isinstance(obj, Expression):
+                        last = obj.degree
+                        if rep:
+                            rep.transitions += 1
+                if isinstance(root, Expression):
+                    reported[trav + "/degree-after-subexpression-queries"] = root.degree
+                    reported[trav + "/is_linear-after-subexpression-queries"] = 1 if root.is_linear() else None
+            except Exception as ex:
+                fails.add("exception:bottom-up:" + type(ex).__name__, msg=str(ex)[:200])
     analysis._compute_degree_cached.cache_clear()
     if rep:
         rep.states += 1
